@@ -26,6 +26,12 @@ class QueryFamily:
         m = re.match(r'M (.*?) S (.*)$', s)
         return m.group(1), m.group(2), True
 
+    def within_hypotheses(self, case):
+        """C02_sound / C02_complete speak of the Cartesian product of NON-EMPTY domains: with an empty domain the product is empty
+        although the evaluator may never need to enumerate that variable (a disjunct it is absent from).  Such cases are compared
+        with the model only (engine: hyp = False)."""
+        return all_selected(case) or all(len(d) > 0 for _, d in case['doms'])
+
     # ---- canonicalisation: what the tie / the property compare -------------------------------
     def view(self, case, rows, strict):
         rows = parse_rows(rows)
@@ -56,12 +62,26 @@ class QueryFamily:
         return tuple(self.view(case, so, True) for _ in self.observed())
 
     def known(self, case, io, mo, so):
-        # cache-path findings: every configuration with caching DISABLED agrees with the specification, the
-        # cached one lost or duplicated rows (C05 / C20 root causes)
+        """signatures of the open findings of known_findings.json (the engine honours an id only if it is listed there)"""
         spec = self.view(case, so, True)
-        if all(self.view(case, io[k], True) == spec for k in ('off', 'off2')) and 'on' in self.cache_configs \
-                and io.get('mixed_level_retrieval'):
-            return 'C05-wildcard-retrieval'
+        srows = parse_rows(so)
+        # C05-wildcard-retrieval: every configuration with caching DISABLED agrees with the specification; a cached evaluation
+        # visited an index level holding both the wildcard and a concrete key and LOST rows (never invented one)
+        if not isinstance(srows, str) and all(self.view(case, io[k], True) == spec for k in ('off', 'off2')) \
+                and 'on' in self.cache_configs and io.get('mixed_level_retrieval'):
+            ok = True
+            for k in ('on', 'on2'):
+                rows = parse_rows(io[k])
+                if isinstance(rows, str) or (collections.Counter(rows) - collections.Counter(srows)):
+                    ok = False
+            if ok:
+                return 'C05-wildcard-retrieval'
+        # C16-repeated-element-dedup: an inner collection repeats an element and the condition has a disjunction: the
+        # value-based de-duplication of the else-if drops the repeated row (caching disabled) - same row SET everywhere
+        if not isinstance(srows, str) and repeated_flat_element(case) and 'or' in cond_ops(case['cond'], {}):
+            sets = [set(parse_rows(io[k])) if not isinstance(parse_rows(io[k]), str) else None for k in self.observed()]
+            if all(x == set(srows) for x in sets):
+                return 'C16-repeated-element-dedup'
         return None
 
     def nontrivial(self, case, io):
@@ -128,6 +148,18 @@ class QueryFamily:
         if case.get('form') == 'entity' and len(d['sel']) != 1:
             d['form'] = 'set_of'
         return d
+
+
+def repeated_flat_element(case):
+    """some parent of the case has the same element twice in the collection a flatten node of the case unnests"""
+    for b in case['binders']:
+        if b[0] == 'flat' and b[2][0] == 'map' and b[2][1][0] == 'f':
+            f = b[2][1][1]
+            for o in case['heap']:
+                v = o[f]
+                if isinstance(v, list) and len(set(map(str, v))) < len(v):
+                    return True
+    return False
 
 
 def subconds(c):
@@ -446,6 +478,9 @@ class C18(QueryFamily):
     def shrink(self, case):
         return []
 
+    def within_hypotheses(self, case):
+        return QueryFamily.within_hypotheses(self, case['orig'])
+
 
 class C05(QueryFamily):
     pid = 'C05'
@@ -459,6 +494,11 @@ class C05(QueryFamily):
 
     def gen(self, rng, i, tier):
         r = rng.random()
+        if r < 0.1:
+            # literal-free joins over three variables: literal ids in the cache keys would otherwise hide partial coverage
+            return gen_query.gen_case(rng, nvars=3, falsy=False, neg=rng.random() < 0.3, maxdepth=3, select='all', dom_max=3, p_lit=0.0)
+        if r < 0.3:
+            return gen_query.gen_case_join(rng, tier)
         if r < 0.5:
             return gen_query.gen_case(rng, nvars=rng.choice([1, 2, 2, 3, 3]), falsy=True, neg=True, maxdepth=3,
                                       select=rng.choice(['all', 'some']), dom_max=4)
